@@ -79,6 +79,7 @@ def run(prog, tier, extra=None):
     R1b = res.rule("C01.combinator", "the result of all()/any() over a verdict closure gates its consumer", floor=2)
     R2 = res.rule("C01.who-may-insert", "only add_transaction (behind validate) and add_block_transactions_back insert into the pool", floor=3)
     R4 = res.rule("C01.dup-scan", "the in-block double-spend scan checks and records each spent key individually", floor=1)
+    R5 = res.rule("C01.scan-exemptions", "only zero-amount and Bound inputs are exempt from the in-block double-spend test", floor=0)
     R3 = res.rule("C01.signature", "Transaction::validate accept paths pass verify_signature(hash_for_signature, signature, from[0].public_key)", floor=1)
 
     units = prog.units
@@ -234,6 +235,52 @@ def run(prog, tier, extra=None):
                     res.add(Finding(R4, key, "an output is recorded as spent in this block without checking whether the same key was already recorded", b.loc(bb)))
     if n_ins == 0:
         res.add(Finding(R4, "C01.dup-scan|none", "Block::validate's transaction sweep no longer records the outputs spent in this block: in-block double spends are not detected", sweep.loc(0)))
+
+    # R5: the sweep looks at every value-carrying input: within one iteration over tx.from the only ways around the
+    # "already spent in this block?" test are the two documented exemptions - a zero amount and a Bound (NFT marker) slip
+    chs = Chaser(sweep)
+    loop_heads = []
+    for bb, t in sweep.calls():
+        if call_name(t) == "std::iter::Iterator::next" and t["args"]:
+            e = chs.origin(t["args"][0])
+            if has_field(e, "transaction::Transaction", "from"):
+                loop_heads.append(bb)
+    tests = gate.bool_switch_edges(sweep, chs, lambda e: e[0] == "call" and e[1].rsplit("::", 1)[-1] in ("contains_key", "contains", "insert", "get"))
+    test_blocks = set(tests["sites"])
+    for bb, t in sweep.calls():
+        if (call_name(t) or "").rsplit("::", 1)[-1] in ("insert", "entry") and t["args"] and any(x[0] == "param" and x[1] == 1 for x in walk(chs.origin(t["args"][0]))):
+            test_blocks.add(bb)
+    zero = gate.compare_edges(sweep, chs, lambda a, c: has_field(a, "slip::Slip", "amount") and c[0] == "const" and c[1] == 0)
+    bound, _ = gate.enum_compare_edges(prog, sweep, chs, "slip::SlipType", "slip_type", {"Bound"})
+    exempt = set(zero["eq"]) | set(bound)
+    for lh in loop_heads:
+        res.instance(R5)
+        nxt = sweep.term(lh).get("t")
+        # Some-edge: the switch on the Option discriminant that follows the call
+        starts = []
+        for b2 in sweep.reachable(nxt) if nxt is not None else ():
+            pass
+        sw = nxt
+        hops = 0
+        while sw is not None and sweep.term(sw)["k"] != "switch" and hops < 6:
+            sw = sweep.term(sw).get("t")
+            hops += 1
+        if sw is None or sweep.term(sw)["k"] != "switch":
+            res.not_decided.append("C01.scan-exemptions: loop shape over tx.from not recognised")
+            continue
+        some = gate.variant_edges(sweep, sw, 1)
+        bad = None
+        for (_, tgt) in some:
+            p = sweep.find_path(tgt, set(sweep.return_blocks()) | {lh}, deleted_edges=exempt, blocked=test_blocks)
+            if p:
+                bad = p
+        if bad:
+            res.add(Finding(R5, "C01.scan-exemptions", "the in-block double-spend sweep can skip an input for a reason other than a zero amount or a Bound slip: "
+                            "two transactions of one block can then spend that output", sweep.loc(bad[0]), {"path": describe_path(sweep, bad)}))
+        else:
+            res.sample({"rule": R5, "loop": sweep.loc(lh), "exemptions": "amount == 0, slip_type == Bound", "verdict": "every other input reaches the already-spent test"})
+    if not loop_heads:
+        res.not_decided.append("C01.scan-exemptions: the sweep does not use an explicit loop over tx.from (iterator chain?); exemptions not decided")
 
     # R3: signature check on every non-privileged accept path of Transaction::validate
     tv = prog.body(CORE + "consensus::transaction::Transaction::validate")
